@@ -122,6 +122,7 @@ var demos = []demo{
 	{finding: "R04.8 forwarding with two writers in flight", src: "li t0, 1\nli t0, 2\nadd t1, t0, zero\nnop\nnop\nnop\nnop\nnop\nret", mem: 64},
 	{finding: "R10.1 load overtakes older store", src: "lw t1, 64(zero)\nsw t1, 0(zero)\nlw t0, 0(zero)\nnop\nnop\nnop\nnop\nnop\nnop\nnop\nnop\nret", mem: 256, setup: func(c *risc.Context) { c.Memory[64] = 42 }},
 	{finding: "R10.1b store then line fetch (sw; nops; lw)", src: "li t1, 7\nsw t1, 0(zero)\nnop\nnop\nnop\nlw t0, 0(zero)\nnop\nnop\nnop\nnop\nnop\nret", mem: 256},
+	{finding: "R05.2 dirty victim lost on eviction (load+store to 18 lines)", src: evictProg(18), mem: 2048},
 	{finding: "R05.3 overlapping unaligned lines", src: "li t1, 7\nlb t2, 100(zero)\nlb t2, 64(zero)\nsb t1, 110(zero)\nlb t2, 150(zero)\nlb t3, 110(zero)\nnop\nnop\nnop\nnop\nret", mem: 256},
 }
 
@@ -150,4 +151,12 @@ func TestKnownMatrix(t *testing.T) {
 			t.Logf("    %-7s%s", name, line)
 		}
 	}
+}
+
+func evictProg(n int) string {
+	src := "li t1, 7\n"
+	for i := 0; i < n; i++ {
+		src += fmt.Sprintf("lw t2, %d(zero)\nsw t1, %d(zero)\n", i*64, i*64)
+	}
+	return src + "nop\nnop\nnop\nnop\nnop\nnop\nret"
 }
